@@ -386,3 +386,14 @@ def run(ctx):
 SWEEP = ["concurrent/test_vector.cpp",
          "concurrent/test_thread_local.cpp",
          "concurrent/test_object_pool.cpp"]
+
+
+# name anchors (validated by tools/rename_sweep.py; a vanished name is exit 2, see core.check_anchor_names)
+ANCHORS = {
+    'create_block': ['^babylon::ConcurrentVector(<|$)'],
+    'delete_block': ['^babylon::ConcurrentVector(<|$)'],
+    'delete_block_table': ['^babylon::ConcurrentVector(<|$)'],
+    'expire': ['^babylon::internal::concurrent_vector::RetireList(<|$)'],
+    'get_current_timestamp': ['^babylon::internal::concurrent_vector::RetireList(<|$)'],
+    'retire': ['^babylon::internal::concurrent_vector::RetireList(<|$)'],
+}
